@@ -60,7 +60,7 @@ Expect(c) ==
     tsmap |-> [t \in 1..(c.T + 1) |-> LET e == TimeSigAt(c, t - 1) IN <<e[2], e[3], e[4]>>],
     ksmap |-> [t \in 1..(c.T + 1) |-> LET e == KeySigAt(c, t - 1) IN <<e[2], e[3]>>],
     clefmap |-> [t \in 1..(c.T + 1) |-> [s \in 1..c.nstaves |-> LET e == ClefAt(c, s, t - 1) IN <<e[2], e[3], e[4], e[5]>>]],
-    inside |-> [t \in 1..(c.T + 1) |-> IF c.measures # {} /\ InsideSomeMeasure(c, t - 1) THEN 1 ELSE 0],
+    inside |-> [t \in 1..(c.T + 1) |-> IF c.measures # {} /\ MeasureMapsDefined(c) /\ InsideSomeMeasure(c, t - 1) THEN 1 ELSE 0],
     mmap |-> [t \in 1..(c.T + 1) |-> IF c.measures = {} THEN <<0, c.T>> ELSE MeasureMap(c, t - 1)],
     mnum |-> [t \in 1..(c.T + 1) |-> IF c.measures = {} THEN 1 ELSE MeasureNumberMap(c, t - 1)],
     mpos |-> [t \in 1..(c.T + 1) |-> IF c.measures = {} THEN <<0, 0>> ELSE MetricalPos(c, t - 1)],
